@@ -262,6 +262,38 @@ def dftInverseNd (roots : Nat → Option (K × K)) (conj re : K → K) (fftw plu
     pure (a, n, F)
   pure (applyAxes fshape steps x)
 
+/-- `DiscreteFourierTransformBase.adjoint` (both plain DFT operators): defined only for
+exponent 2 on both sides, otherwise `NotImplementedError`. -/
+def dftAdjointStatus (domExp2 ranExp2 : Bool) : Option String :=
+  if domExp2 && ranExp2 then none else some "err:NotImplementedError"
+
+/-- One axis of what `DiscreteFourierTransform(sign).adjoint` computes: the code returns
+`self.inverse`, i.e. `DiscreteFourierTransformInverse` with the flipped sign (`ifftn` resp.
+`fftn / prod`), NOT `prod ·` that (open finding F59 of C05; `C18.dft_true_adjoint`). -/
+def dftAdjointAxis (plus : Bool) (w winv : K) (n : Nat) (f : Nat → K) (k : Nat) : K :=
+  dftInverseNp (!plus) w winv n f k
+
+/-- One axis of `DiscreteFourierTransformInverse(sign).adjoint` = its `inverse`, the forward
+operator with the flipped sign. -/
+def dftInvAdjointAxis (plus : Bool) (w winv : K) (n : Nat) (f : Nat → K) (k : Nat) : K :=
+  dftForwardNp (!plus) w winv n f k
+
+/-- `op.adjoint(x)` for the two plain DFT operators on n-d arrays (`inv`: the operator is a
+`DiscreteFourierTransformInverse`; `plus`: the operator's own sign).  The property `inverse`
+does not pass `impl` on, so the returned operator runs on the DEFAULT back-end (`fftw`:
+whether that is pyfftw). -/
+def dftAdjointNd (roots : Nat → Option (K × K)) (conj re : K → K) (fftw inv plus hc : Bool)
+    (rshape axes : List Nat) (x : Array K) : Option (List Nat × Array K) :=
+  if inv then dftForwardNd roots fftw (!plus) hc rshape axes x
+  else dftInverseNd roots conj re fftw (!plus) hc rshape axes x
+
+/-- `DiscreteFourierTransformBase.__init__` with `range=None`: the default range
+`uniform_discr([0]*d, shape - 1, shape, nodes_on_bdry=True)` has extent 0 in a one-point axis
+(transformed or not), hence cell volume 0, which the space's weighting rejects with `ValueError`
+(open finding F18g).  `fshape`: the range shape.  With a given range nothing is constructed. -/
+def dftDefaultRangeStatus (fshape : List Nat) (rangeGiven : Bool) : Option String :=
+  if !rangeGiven && fshape.any (· == 1) then some "err:value" else none
+
 /-- `self.halfcomplex`: forced to `False` on complex domains. -/
 def dftHalfcomplexFlag (complexDom hcArg : Bool) : Bool := if complexDom then false else hcArg
 
